@@ -1,7 +1,7 @@
 //! C13 — state files survive a crash at any point of a save.
 //!
 //! Fault enumeration on the real binary (built with the `verif` feature): every instrumented point
-//! of the save protocol × every prior state of the target (absent, valid, valid and large) × each
+//! of the save protocol × every prior state of the target (absent, valid, valid and large, a symbolic link to a valid file) × each
 //! of the three file kinds.  The process is aborted at the point (`SLOC_GUARD_VERIF_CRASH`), the
 //! bytes under the target and temp names are recorded, and then every command that reads the file
 //! is run.  The space is finite and enumerated completely.
@@ -27,6 +27,8 @@ enum Prior {
     Absent,
     Valid,
     Large,
+    /// a valid file kept elsewhere, the state file's name is a symbolic link to it
+    Symlink,
 }
 
 struct Proj {
@@ -132,6 +134,12 @@ fn prepare(p: &Proj, kind: Kind, prior: Prior) -> Option<Vec<u8>> {
     // change the project so that the next save writes different content
     std::fs::write(p.dir.join("src/extra.rs"), "let a = 1;\nlet b = 2;\nlet c = 3;\nlet d = 4;\nlet e = 5;\nlet f = 6;\nlet g = 7;\n").unwrap();
     set_mtime(&p.dir.join("src/extra.rs"), 1_600_000_100);
+    if prior == Prior::Symlink {
+        let t = target_of(kind, &p.dir);
+        let store = p.dir.join("elsewhere.json");
+        std::fs::rename(&t, &store).unwrap();
+        std::os::unix::fs::symlink(&store, &t).unwrap();
+    }
     std::fs::read(target_of(kind, &p.dir)).ok()
 }
 
@@ -212,7 +220,7 @@ pub fn run(_tier: Tier, _seed: u64, out: &str) {
     if let Ok(bin) = std::env::var("SGVERIF_BIN") {
         let scratch = std::env::var("SGVERIF_SCRATCH").unwrap_or_else(|_| "/verif/.build/scratch/c13".to_string());
         for kind in [Kind::Baseline, Kind::History, Kind::Cache] {
-            for prior in [Prior::Absent, Prior::Valid, Prior::Large] {
+            for prior in [Prior::Absent, Prior::Valid, Prior::Large, Prior::Symlink] {
                 for point in POINTS {
                     one(&mut sink, &scratch, &bin, kind, prior, point);
                 }
